@@ -4,3 +4,4 @@ import Model.Metadata
 import Model.Assign
 import Model.ErrorPolicy
 import Model.FileStore
+import Model.PathsStore
